@@ -46,4 +46,28 @@ CHECKS["C03"] = {
     "assumptions": COMMON_ASSUMPTIONS + ["one global recording listener registered for the process; breakers of a resource are consulted in get_breakers_of_resource order"],
 }
 
+CHECKS["C04"] = {
+    "package": "seq", "bin": "c04", "flavor": "seq",
+    "shards": {"quick": 4, "thorough": 16},
+    "level": "exploration",
+    "technique": "runtime monitoring: client-boundary ledger (conservation oracle) compared with node statistics after every operation under a virtual clock",
+    "rule": "cases = generated interleavings of build/exit over 2-4 fresh resources, inbound and outbound, batch 1..7, time advances from a boundary grid (0 ms .. 12 s), with isolation / flow / circuit-breaker rules that block some entries; after EVERY operation in-flight, sum/qps of Pass, Block, Complete, Rt and avg_rt are read on every resource node over the 1 s default window and a 10 s generated window, and on the global inbound node (process-long ledger). Non-trivial iff the case has >=1 blocked and >=1 passed entry and spans a window roll-over; distinct = distinct (#resources, #rules per family, inbound?/outbound?, batch>1?, #blocked class)",
+    "level_text": "Conservation between what the caller observed (Ok/Err of build, exit calls) and what the statistics report, checked after every single operation on thousands of histories; exploration.",
+    "level_note": "Which entries get blocked is taken from the observed build() result (C01/C03/C05 decide that); this check decides only the accounting.",
+    "design_ref": "DESIGN.md §5 C04",
+    "assumptions": COMMON_ASSUMPTIONS + ["the global inbound node is only touched by this process's own cases"],
+}
+
+CHECKS["C05"] = {
+    "package": "seq", "bin": "c05", "flavor": "seq",
+    "shards": {"quick": 4, "thorough": 16},
+    "level": "exploration",
+    "technique": "runtime monitoring: in-flight ledger per resource and per parameter value as decision oracle, cap invariant asserted on the live node after every operation, rejection reports parsed and checked",
+    "rule": "cases = generated build/exit interleavings (up to ~16 simultaneously open entries, batch 1..3) against 1-3 isolation rules (thresholds 1..6) and/or 1-2 hotspot concurrency rules (positional index -3..3, keyed parameter, overrides, capacity default/4/8, values a..d, missing/short argument lists). Non-trivial iff something was rejected and (capacity freed by an exit was re-used by the very next request, or a hotspot rejection happened); distinct = distinct (#iso rules, #hotspot rules, rejection kinds, reuse-after-exit?, missing parameter?, key-over-index?, negative index?, #overrides)",
+    "level_text": "Every admission decision is compared with the cap arithmetic from the statement; for hotspot batches >1 only the implications common to both readings of 'batch' are asserted; every rejection must carry the right block type and name a rule that is really exceeded; exploration.",
+    "level_note": "Hotspot thresholds and overrides are kept >= 1 (quantifier). When isolation and hotspot both reject, the report of the later slot (hotspot) is accepted.",
+    "design_ref": "DESIGN.md §5 C05",
+    "assumptions": COMMON_ASSUMPTIONS,
+}
+
 NOT_APPLICABLE = {}
